@@ -101,13 +101,18 @@ def build(shape, v):
         return [[atom(v["name"], None, (OPS[v["op"]], v["ver"])), atom("o", v["qual"])]]
     if shape == "conj2":
         return [[atom(v["name"])], [atom("z", None, (OPS[v["op"]], v["ver"]), [AR(True, v["arch"])])]]
+    if shape == "arch-x3":
+        return [[atom(v["name"], None, None, [AR(True, v["arch"])]), atom("o", None, None, [AR(False, "h"), AR(False, "k")])],
+                [atom("z", None, (OPS[v["op"]], v["ver"]), [AR(True, "j")])]]
+    if shape == "restr-x2":
+        return [[atom(v["name"], None, None, None, [[BR(True, v["prof"])]])], [atom("z", None, None, [AR(True, v["arch"])], [[BR(False, "n")], [BR(True, "c")]])]]
     if shape == "2x2":
         return [[a_full, atom("b")], [atom("c", v["qual"]), atom(v["name"], None, None, None, [[BR(True, v["prof"])]])]]
     raise KeyError(shape)
 
 
 SHAPES = ["name", "qual", "ver", "qual+ver", "arch1", "arch-neg2", "ver+arch", "restr1", "restr-neg", "restr2x2",
-          "ver+restr", "arch+restr", "alt2", "conj2", "full", "2x2"]
+          "ver+restr", "arch+restr", "alt2", "conj2", "full", "2x2", "arch-x3", "restr-x2"]
 KINDS = {"name": "name", "qual": "qual", "ver": "ver", "arch": "arch", "prof": "prof"}
 USES = {
     "name": ["name"], "qual": ["name", "qual"], "ver": ["name", "ver"], "qual+ver": ["name", "qual", "ver"],
@@ -115,6 +120,7 @@ USES = {
     "restr1": ["name", "prof"], "restr-neg": ["name", "prof"], "restr2x2": ["name", "prof"],
     "ver+restr": ["name", "ver", "prof"], "arch+restr": ["name", "arch", "prof"], "alt2": ["name", "ver", "qual"],
     "conj2": ["name", "ver", "arch"], "full": ["name", "qual", "ver", "arch", "prof"], "2x2": ["name", "qual", "ver", "arch", "prof"],
+    "arch-x3": ["name", "arch", "ver"], "restr-x2": ["name", "prof", "arch"],
 }
 DEFAULTS = dict(name="p", qual="q", ver="1", arch="i", prof="s")
 
@@ -203,7 +209,7 @@ def partitions(tier, seed):
             for ln in ((1, 2) if q else (1, 2, 3)):
                 if q and (ln == 2 and (shape not in ("name", "qual", "arch1", "restr1") or h[0] == "ver")):
                     continue
-                if q and shape in ("full", "2x2", "alt2", "conj2") and h[0] not in ("name",):
+                if q and shape in ("full", "2x2", "alt2", "conj2", "arch-x3", "restr-x2") and h[0] not in ("name",):
                     continue
                 if len(h) == 2 and ln == 3:
                     continue
